@@ -13,8 +13,8 @@ from .. import core, tlc
 from ..core import Report
 from . import g1
 
-CONFIGS = {"quick": ["GenG1_cfg_q.cfg", "GenG1_syms_q.cfg"],
-           "thorough": ["GenG1_cfg_t.cfg", "GenG1_syms_t.cfg", "GenG1_fn_q.cfg"]}
+CONFIGS = {"quick": ["GenG1_cfg_q.cfg", "GenG1_syms_q.cfg", "GenG1_cfi_q.cfg"],
+           "thorough": ["GenG1_cfg_t.cfg", "GenG1_syms_t.cfg", "GenG1_fn_q.cfg", "GenG1_cfi_q.cfg", "GenG1_ann_q.cfg"]}
 NCASES = {"quick": 300, "thorough": 3000}
 SEEDS = {"quick": [0, 1, 7, 4242], "thorough": [0, 1, 2, 3, 5, 7, 11, 13, 17, 19, 23, 4242, 99991, 123456, 31337, 65537]}
 PERMS = {"quick": 2, "thorough": 3}
@@ -80,6 +80,9 @@ def run(prop: str, tier: str, replay: str = None) -> int:
                     d["order"] = (list(range(len(c["reqs"]))) if p == 0
                                   else admissible_order(c["reqs"], rng))
                     d["id"] = f"{c['id']}-p{p}"
+                    # aux-data tables are mappings: the order in which the renderer fills
+                    # them (ascending / descending displacement) must not matter either
+                    d["shape"] = dict(c["shape"], ann_order="desc" if p % 2 else "asc")
                     out.write(json.dumps(d, separators=(",", ":")) + "\n")
         runs: Dict[str, list] = {}
         shards = core.split_file(variants, 4, wd, "det")
